@@ -716,7 +716,7 @@ static void gen_c15(plan_t *p, rng_t *r)
     if (rng_chance(r, 1, 4)) { protosim_gen_program(p, r); plan_knob(p, "scenario", 1); return; }
     plan_knob(p, "viamacro", rng_chance(r, 1, 3));
 #else
-    plan_knob(p, "viamacro", 1);          /* build without tracking compiled in: the macros map to the plain allocator */
+    plan_knob(p, "viamacro", rng_chance(r, 1, 2));          /* build without tracking compiled in: the macros map to the plain allocator; the tracker's own functions, called directly, track all the same */
 #endif
     untracked_prefix = rng_chance(r, 1, 4) ? rng_range(r, 1, 10) : 0;
     plan_knob(p, "level0", untracked_prefix ? 4 : 5);
